@@ -5,9 +5,10 @@ M: HttpMethod.tla -- handling of one HTTP request (decode, select operation, met
    reference operators / termination.  A second run with all named deviations on (today's code) must
    violate GetNeverMutates.
 G: TLC enumerates the matrix: integration x entry (ready-made service, single extractor, batch extractor)
-   x {GET, POST} x accept {json, multipart/mixed} x {single, JSON-array batch where accepted} x requests
-   (every valid document of <= 2 operations over {query Q, mutation M, anonymous query, anonymous mutation}
-   with every operationName that selects an operation).
+   x {GET, POST} x accept {json, multipart/mixed} x requests (every valid document of <= 2 operations over
+   {query Q, mutation M, anonymous query, anonymous mutation} x operationName {absent, empty, Q, M, unknown});
+   GET: query string {absent, one request} x JSON body sent along {none, one mutation, batch of two};
+   POST: JSON object, or JSON-array batch where the entry accepts one.
 harness (harness/vh-http, binary c35): sends each cell in process through the integration's own
    service / extractor / filter with a real HTTP request; records status, per-response `errors`, the
    mutation resolver's side-effect counter delta and the query resolver's runs.
@@ -31,12 +32,22 @@ def build_c35():
 
 
 def selected(it):
-    if it["op"] == "":
+    """operation type selected by (document, operationName) -- only used for counting, TLC judges"""
+    if it["opk"] == "absent":
         return it["doc"][0]["type"] if len(it["doc"]) == 1 else "none"
-    for o in it["doc"]:
-        if o["name"] == it["op"]:
-            return o["type"]
+    if it["opk"] == "given":
+        for o in it["doc"]:
+            if o["name"] == it["op"] and it["op"] != "":
+                return o["type"]
     return "none"
+
+
+def get_asks_mutation(o):
+    """the antecedent of the property: a GET request that asks for a mutation -- by the query string (also with an
+    operationName that selects nothing, when the document has a mutation) or by a JSON body sent along"""
+    if o["method"] != "GET":
+        return False
+    return any(x["type"] == "mutation" for it in o["qs"] for x in it["doc"]) or len(o["body"]) > 0
 
 
 def body(c):
@@ -98,21 +109,25 @@ def body(c):
     if controls:
         o, vd = controls[0]
         raise vlib.ToolError("%d control cells failed (the harness cannot observe through this route, the run would be "
-                             "vacuous); first: %s %s %s %s %s -> status %s errs %s effects %s reads %s body %r"
-                             % (len(controls), vd, o["integ"], o["entry"], o["method"], o["frame"], o["status"], o["errs"],
-                                o["effects"], o["reads"], o["body"][:120]))
-    judged = {i: 0 for i in INTEGRATIONS}
+                             "vacuous); first: %s %s %s %s %s -> status %s errs %s effects %s reads %s response %r"
+                             % (len(controls), vd, o["integ"], o["entry"], o["method"], o["url"][:80], o["payload"][:80],
+                                o["status"], o["errs"], o["effects"], o["reads"], o["response"][:120]))
+    judged = {i: 0 for i in INTEGRATIONS}      # GET cells whose query string selects a mutation
+    hostile = {i: 0 for i in INTEGRATIONS}     # GET cells with a body / an operationName that selects nothing
     for o in obs:
-        it = o["items"][0]
-        get_mut = o["method"] == "GET" and selected(it) == "mutation"
-        key = {k: o[k] for k in ("integ", "entry", "method", "accept", "frame", "items")}
-        c.count_case(key, nontrivial=get_mut)
+        get_mut = o["method"] == "GET" and len(o["qs"]) == 1 and selected(o["qs"][0]) == "mutation"
+        asks = get_asks_mutation(o)
+        key = {k: o[k] for k in ("integ", "entry", "method", "accept", "qs", "body")}
+        c.count_case(key, nontrivial=asks)
         if get_mut:
             judged[o["integ"]] += 1
+        elif asks:
+            hostile[o["integ"]] += 1
         vd = verdicts[o["id"]]
-        c.verdict(vd, o, "%s %s over %s (%s): %s" % (o["integ"], o["entry"], o["method"], o["url"][:60], vd))
+        c.verdict(vd, o, "%s %s over %s (%s%s): %s" % (o["integ"], o["entry"], o["method"], o["url"][:60],
+                                                      " + JSON body" if o["method"] == "GET" and o["payload"] else "", vd))
     for i in INTEGRATIONS:
-        if judged[i] == 0:
+        if judged[i] == 0 or hostile[i] == 0:
             raise vlib.ToolError("vacuity: no GET + mutation cell was driven through " + i)
     for i in sorted(drift)[:3]:
         o = obs[i - 1]
@@ -123,18 +138,23 @@ def body(c):
     c.cov["traces_validated_against_impl"] = len(obs)
     c.cov["exhaustive"] = True
     c.cov["get_mutation_cells_per_integration"] = judged
+    c.cov["get_body_or_unselected_cells_per_integration"] = hostile
     c.cov["rule"] = ("G: every cell of the finite matrix of HttpMethod.tla (TLC enumerates the initial states): integration x "
                      "entry (ready-made service / single extractor / batch extractor, as each integration offers) x {GET, POST} "
-                     "x accept {json; multipart/mixed on the services} x {single; JSON-array batch of %d requests on POST where "
-                     "the entry accepts one} x requests = every valid document of <= 2 operations over {query Q, mutation M, "
-                     "anonymous query, anonymous mutation} with every operationName that selects an operation (10 requests); "
-                     "GET sends query/operationName/variables in the query string, POST sends JSON. non-trivial = GET and the "
-                     "selected operation is a mutation; distinct by the cell" % blen)
-    gm = [o for o in obs if o["method"] == "GET" and selected(o["items"][0]) == "mutation"]
-    gq = [o for o in obs if o["method"] == "GET" and selected(o["items"][0]) == "query"]
-    for o in gm[:1] + gm[-1:] + gq[:1]:
-        c.sample({k: o[k] for k in ("integ", "entry", "method", "accept", "url", "status", "errs", "effects", "reads", "body")}
-                 | {"verdict": verdicts[o["id"]]})
+                     "x accept {json; multipart/mixed on the services} x requests = every valid document of <= 2 operations over "
+                     "{query Q, mutation M, anonymous query, anonymous mutation} x operationName {absent, present but empty, Q, M, "
+                     "unknown X} (30 requests, 10 of them select an operation). GET: query string {none, one request as "
+                     "query/operationName/variables} x JSON body sent along {none, one mutation, array of two mutations}; POST: "
+                     "one request as JSON object, or a JSON array of %d selecting requests where the entry accepts a batch. "
+                     "non-trivial = a GET that asks for a mutation (mutation in the query-string document, or a body sent "
+                     "along); distinct by the cell" % blen)
+    gm = [o for o in obs if o["method"] == "GET" and len(o["qs"]) == 1 and selected(o["qs"][0]) == "mutation"]
+    gb = [o for o in obs if o["method"] == "GET" and not o["qs"] and len(o["body"]) == 2]
+    ge = [o for o in obs if o["method"] == "GET" and o["qs"] and o["qs"][0]["opk"] == "empty" and not o["body"]
+          and o["qs"][0]["doc"] == [{"type": "mutation", "name": "M"}]]
+    for o in gm[:1] + gb[:1] + ge[:1]:
+        c.sample({k: o[k] for k in ("integ", "entry", "method", "accept", "url", "payload", "status", "errs", "effects",
+                                     "reads", "response")} | {"verdict": verdicts[o["id"]]})
     c.assumptions += [
         "all five integrations were driven in process: axum via tower::ServiceExt::oneshot on a Router, actix-web via "
         "actix_web::test::{init_service, try_call_service}, warp via warp::test::request().reply(), rocket via "
@@ -145,6 +165,10 @@ def body(c):
         "POST cells and GET cells whose document has no mutation are controls of the observation channel (counter, route): a "
         "failing control is a tool error, not a verdict -- the property says nothing about them",
         "'answered with an error' = HTTP status >= 400 or a GraphQL response with a non-empty `errors`",
+        "an operationName that is present (the empty string included) selects the operation of that name or nothing "
+        "(GraphQL 6.1 GetOperation; an anonymous operation has no name); for GET cells where nothing is selected, where there "
+        "is no query string, or where a JSON body is sent along, only 'no mutation effect' is demanded (what the answer looks "
+        "like is reported as drift against the model of today's code, not judged)",
         "a tokio current-thread runtime / actix System carries the frameworks' plumbing; no schedule is checked",
         "WebSocket and multipart/form-data uploads are not HTTP GET request paths and are out of scope",
     ]
